@@ -505,11 +505,15 @@ EStep(C0_, kk, m, o, vid, i) ==
     IN
     CASE C.mode = "E" /\ name = "key" ->
              Obs(C, i, o, o.k = kk /\ o.kid = (IF pres THEN el[3] ELSE C.ek))
-      [] C.mode = "E" /\ name \in {"or_insert", "or_insert_with", "or_insert_with_key"} ->
+      [] C.mode = "E" /\ name \in {"or_insert", "or_insert_with", "or_insert_with_key", "or_default"} ->
+             \* or_default: V::default() (value 0, a new object whose id is logged afterwards) is only
+             \* created when the key is absent
              IF pres
-             THEN Obs([C EXCEPT !.mode = "R", !.drops = @ \cup NZ({vid, C.ek}), !.ek = 0], i, o, TRUE)
-             ELSE Obs([C EXCEPT !.mode = "R", !.E = @ \cup {<<kk, m.v, C.ek, vid>>}, !.ek = 0, !.added = TRUE, !.nadd = @ + 1,
-                               !.fn = @ + (IF name = "or_insert" THEN 0 ELSE 1)], i, o, TRUE)
+             THEN Obs([C EXCEPT !.mode = "R", !.drops = @ \cup NZ({vid, C.ek}), !.ek = 0], i, o,
+                      name = "or_default" => vid = 0)
+             ELSE Obs([C EXCEPT !.mode = "R", !.E = @ \cup {<<kk, IF name = "or_default" THEN 0 ELSE m.v, C.ek, vid>>},
+                               !.ek = 0, !.added = TRUE, !.nadd = @ + 1,
+                               !.fn = @ + (IF name \in {"or_insert", "or_default"} THEN 0 ELSE 1)], i, o, TRUE)
       [] C.mode = "E" /\ name = "and_modify" ->
              IF pres THEN Obs([C EXCEPT !.E = Put(C.E, <<kk, (el[2] + m.add) % 1000, el[3], el[4]>>), !.fn = @ + 1], i, o, TRUE)
              ELSE Obs(C, i, o, TRUE)
@@ -521,7 +525,7 @@ EStep(C0_, kk, m, o, vid, i) ==
              ELSE Obs([C EXCEPT !.E = @ \cup {<<kk, m.v, C.ek, vid>>}, !.mode = "O", !.ek = 0, !.added = TRUE, !.nadd = @ + 1], i, o, TRUE)
       [] C.mode = "E" /\ name = "match" ->
              Obs([C EXCEPT !.mode = IF pres THEN "O" ELSE "V"], i, o, o.occ = (IF pres THEN 1 ELSE 0))
-      [] C.mode = "O" /\ name = "o_key" -> Obs(C, i, o, o.k = kk /\ o.kid = el[3])
+      [] C.mode = "O" /\ name \in {"o_key", "o_key_mut"} -> Obs(C, i, o, o.k = kk /\ o.kid = el[3])
       [] C.mode = "O" /\ name = "o_get" -> Obs(C, i, o, o.v = el[2] /\ o.vid = el[4])
       [] C.mode = "O" /\ name = "o_get_mut" ->
              LET nv == IF HasF(m, "w") THEN m.w ELSE el[2] IN
@@ -618,7 +622,7 @@ RStep(C0_, kk, m, o, ids, i) ==
              IF pres THEN ReplaceWith ELSE Obs(C, i, o, TRUE)
       [] C.mode = "E" /\ name = "match" ->
              Obs([C EXCEPT !.mode = IF pres THEN "O" ELSE "V"], i, o, o.occ = (IF pres THEN 1 ELSE 0))
-      [] C.mode = "O" /\ name = "o_key" -> Obs(C, i, o, o.k = kk /\ o.kid = el[3])
+      [] C.mode = "O" /\ name \in {"o_key", "o_key_mut"} -> Obs(C, i, o, o.k = kk /\ o.kid = el[3])
       [] C.mode = "O" /\ name = "o_get" -> Obs(C, i, o, o.v = el[2] /\ o.vid = el[4])
       [] C.mode = "O" /\ name = "o_get_key_value" -> Obs(C, i, o, o.k = kk /\ o.kid = el[3] /\ o.v = el[2] /\ o.vid = el[4])
       [] C.mode = "O" /\ name \in {"o_get_mut", "o_get_key_value_mut"} ->
